@@ -141,6 +141,7 @@ class FnTir:
         self.env = {}          # local name -> string-TIR of its initialiser, evaluated at the let (scoping/shadowing respected)
         self.env_expr = {}     # local name -> initialiser expression (latest binding; for guards that mention a local)
         self.env_closures = {}  # local name -> closure expression bound by `let f = |..| {..}`
+        self.env_tuple = {}     # local name -> tuple expression (a row of a lookup table bound to a closure parameter)
         self.env_bool = {}      # local name -> True / False: known boolean literal (per arm of a tuple let)
         self.env_opt = {}       # local name -> ("none", None) | ("some", payload expr): known Option constructor (per arm of a tuple let)
         self.params = []
@@ -196,13 +197,21 @@ class FnTir:
             return isinstance(x, dict) and ((x.get("k") == "path" and x.get("def") == "core::option::Option::None") or
                                             (x.get("k") == "call" and x.get("callee") == "core::option::Option::Some"))
 
+        known = [0]
+
         def tup(x):
             x = H.peel_ref(H.peel(x))
             while isinstance(x, dict) and x.get("k") == "block" and not x.get("stmts") and x.get("expr") is not None:
                 x = H.peel_ref(H.peel(x["expr"]))
             if single:
                 # `let prefix = match .. { A => Some("KW "), B => None };` - an Option chosen per arm
-                return {"k": "tuple", "es": [x]} if is_opt(x) else None
+                # (an arm that computes the Option some other way leaves the name unknown under that arm's guard)
+                if is_opt(x):
+                    known[0] += 1
+                    return {"k": "tuple", "es": [x]}
+                if isinstance(x, dict) and (self.ty(x) or "").lstrip("&").startswith("core::option::Option<") and not has_effects(self.W(x)):
+                    return {"k": "tuple", "es": [x]}
+                return None
             return x if isinstance(x, dict) and x.get("k") == "tuple" and len(x.get("es") or []) == n else None
         arms = []
         if init.get("k") == "match" and init.get("src") == "Normal":
@@ -223,7 +232,7 @@ class FnTir:
                 arms.append((self.guard(init["cond"], taken), t_))
         else:
             return None
-        if len(arms) < 2:
+        if len(arms) < 2 or (single and not known[0]):
             return None
         return [(g, [(p["name"], x) for p, x in zip(subs, t_["es"]) if p.get("k") == "bind"]) for g, t_ in arms]
 
@@ -374,6 +383,16 @@ class FnTir:
                     for i_, sb in enumerate(pt["subs"][0]["subs"]):
                         if sb.get("k") == "bind":
                             self.env[sb["name"]] = self.component(src["args"][0]["body"], i_)
+            # `if let Some((_, kw)) = TABLE.iter().find(..) { .. }` (or a local holding that): the body once per row
+            if isinstance(c0, dict) and c0.get("k") == "let" and isinstance(c0.get("init"), dict):
+                pt = c0.get("pat") or {}
+                lk = self.lookup_rows(c0["init"]) if (pt.get("path") or {}).get("def") == "core::option::Option::Some" and len(pt.get("subs") or []) == 1 else None
+                if lk is not None:
+                    tname, rows = lk["table"], lk["rows"]
+                    alts = [(self.row_guard(lk, ri), self.with_row(pt["subs"][0], row, lambda: self.W(e["then"]))) for ri, row in enumerate(rows)]
+                    if not lk["total"]:
+                        alts.append((self.row_guard(lk, None), self.W(e["else"]) if e.get("else") is not None else ("seq", [])))
+                    return ("seq", [self.W(c0["init"]), ("alt", alts)])
             pre = self.W(e["cond"])
             th = self.W(e["then"])
             el = self.W(e["else"]) if e.get("else") is not None else ("seq", [])
@@ -623,6 +642,9 @@ class FnTir:
                 return self.env[nm]
             return self.hole_for(e, "local " + nm)
         if k == "tuple_field":
+            b_ = H.peel_ref(e["base"])
+            if b_.get("k") == "local" and b_.get("name") in self.env_tuple and e["idx"] < len(self.env_tuple[b_["name"]].get("es") or []):
+                return self.S(self.env_tuple[b_["name"]]["es"][e["idx"]], depth + 1)
             return ("hole", "UNKNOWN", {"what": "%s.%d" % (text(e["base"]), e["idx"]), "of": e["base"], "idx": e["idx"]}, e.get("sp"))
         if k == "field":
             return self.hole_for(e, text(e))
@@ -670,6 +692,48 @@ class FnTir:
             return self.S(e["e"], depth + 1)
         if k == "unary" and e["op"] == "deref":
             return self.S(e["e"], depth + 1)
+        if k == "mcall" and e.get("name") in ("map_or", "unwrap_or", "unwrap_or_default", "unwrap", "expect") and (is_stringy(strip_ref(t or "")) or strip_ref(t or "") == "char"):
+            # text looked up in a constant table: `TABLE.iter().find(..).map_or("", |(_, kw)| kw)` and
+            # `.. .map(|(_, kw)| *kw).unwrap_or("")`: one alternative per row, one for "not found"
+            nm_, a_ = e["name"], e.get("args") or []
+            src_, proj, dflt = e["recv"], None, None
+            if nm_ == "map_or" and len(a_) == 2 and H.peel_ref(a_[1]).get("k") == "closure":
+                proj, dflt = H.peel_ref(a_[1]), a_[0]
+            else:
+                if nm_ == "unwrap_or" and len(a_) == 1:
+                    dflt = a_[0]
+                elif nm_ == "unwrap_or_default":
+                    dflt = {"k": "lit", "lit": {"t": "str", "v": ""}}
+                r_ = H.peel_ref(src_)
+                if r_.get("k") == "mcall" and r_.get("name") == "map" and len(r_.get("args") or []) == 1 and H.peel_ref(r_["args"][0]).get("k") == "closure":
+                    proj, src_ = H.peel_ref(r_["args"][0]), r_["recv"]
+            lk = self.lookup_rows(src_) if proj is not None else None
+            if lk is not None and len(proj.get("params") or []) == 1:
+                tname, rows = lk["table"], lk["rows"]
+                alts = []
+                for ri, row in enumerate(rows):
+                    alts.append((self.row_guard(lk, ri), self.with_row(proj["params"][0], row, lambda: self.S(proj["body"], depth + 1))))
+                if dflt is not None and not lk["total"]:
+                    alts.append((self.row_guard(lk, None), self.S(dflt, depth + 1)))
+                return ("alt", alts)
+        if k == "call" and "fn_expr" in e:
+            # a local closure that computes text, called directly (`let label = |v| self.escape_string(&v.to_string()); .. label(x)`):
+            # the text of its body with the parameters standing for the arguments
+            fe = H.peel_ref(e["fn_expr"])
+            if isinstance(fe, dict) and fe.get("k") == "local" and fe.get("name") in self.env_closures and getattr(self, "_sinl", 0) < 3:
+                c = self.env_closures[fe["name"]]
+                cps = c.get("params") or []
+                if len(cps) == len(e.get("args") or []) and all((cp.get("pat") or {}).get("k") == "bind" for cp in cps):
+                    saved = (dict(self.env), dict(self.env_expr))
+                    self._sinl = getattr(self, "_sinl", 0) + 1
+                    try:
+                        for cp, a in zip(cps, e.get("args") or []):
+                            self.env[cp["pat"]["name"]] = self.S(a, depth + 1)
+                            self.env_expr[cp["pat"]["name"]] = a
+                        return self.S(c["body"], depth + 1)
+                    finally:
+                        self._sinl -= 1
+                        self.env, self.env_expr = saved
         if k in ("mcall", "call"):
             name = e.get("name") or (e.get("callee") or "").rsplit("::", 1)[-1]
             callee = e.get("callee") or ""
@@ -735,6 +799,136 @@ class FnTir:
                                           "args": [text(a) for a in args], "arg_nodes": ([recv] if recv is not None else []) + list(args), "node": e}, e.get("sp"))
             return self.hole_for(e, text(e))
         return self.hole_for(e, text(e))
+
+    def lookup_rows(self, e, depth=0):
+        """`TABLE.iter().find(|row| ..)` over a constant array of tuples (also behind `.copied()`, a local, or
+        `opt.and_then(|x| TABLE.iter().find(..))`): {"table", "rows": [tuple expressions], "find", "total"}, or None.
+        Which row is found depends on run-time data: every row is a possible outcome, and so is "none" unless the table is
+        total (the closure compares one component with `==` and the rows list every variant of that enum) and no outer
+        Option is involved."""
+        e = H.peel_ref(H.peel(e)) if isinstance(e, dict) else None
+        if not isinstance(e, dict) or depth > 4:
+            return None
+        k = e.get("k")
+        if k == "local":
+            src = self.env_expr.get(e["name"])
+            return self.lookup_rows(src, depth + 1) if isinstance(src, dict) else None
+        if k == "block" and not e.get("stmts") and e.get("expr") is not None:
+            return self.lookup_rows(e["expr"], depth + 1)
+        if k != "mcall":
+            return None
+        nm, args = e.get("name"), e.get("args") or []
+        if nm in ("copied", "cloned", "as_ref") and not args:
+            return self.lookup_rows(e["recv"], depth + 1)
+        if nm == "and_then" and len(args) == 1 and H.peel_ref(args[0]).get("k") == "closure":
+            clo_ = H.peel_ref(args[0])
+            r = self.lookup_rows(clo_["body"], depth + 1)
+            if r is not None:
+                ps_ = clo_.get("params") or []
+                p0 = (ps_[0].get("pat") if isinstance(ps_[0], dict) and ps_[0].get("k") is None and "pat" in ps_[0] else ps_[0]) if len(ps_) == 1 else None
+                # the outer Option may be None
+                r = dict(r, total=False, find=e, outer=(e["recv"], p0.get("name")) if isinstance(p0, dict) and p0.get("k") == "bind" and r.get("outer") is None else None)
+            return r
+        if nm == "find" and len(args) == 1 and H.peel_ref(args[0]).get("k") == "closure":
+            r = H.peel_ref(e["recv"])
+            while r.get("k") == "mcall" and r.get("name") in ("iter", "into_iter", "copied", "cloned", "as_slice") and not r.get("args"):
+                r = H.peel_ref(r["recv"])
+            if r.get("k") == "path" and ("Const" in (r.get("dk") or "") or "Static" in (r.get("dk") or "")) and r.get("def") in self.f.fns:
+                body = self.f.fns[r["def"]].get("hir")
+                body = H.peel_ref(H.peel(body)) if isinstance(body, dict) else None
+                while isinstance(body, dict) and body.get("k") == "block" and not body.get("stmts") and body.get("expr") is not None:
+                    body = H.peel_ref(H.peel(body["expr"]))
+                if isinstance(body, dict) and body.get("k") == "array":
+                    rows = [H.peel_ref(H.peel(x)) for x in body.get("es") or []]
+                    if rows and all(isinstance(x, dict) and x.get("k") == "tuple" for x in rows):
+                        total, key = self._lookup_total(H.peel_ref(args[0]), rows)
+                        return {"table": r["def"], "rows": rows, "find": e, "total": total, "key": key, "outer": None}
+        return None
+
+    def _lookup_total(self, clo, rows):
+        ps = clo.get("params") or []
+        if len(ps) != 1:
+            return (False, None)
+        pat = ps[0].get("pat") if isinstance(ps[0], dict) and ps[0].get("k") is None and "pat" in ps[0] else ps[0]
+        while isinstance(pat, dict) and pat.get("k") in ("ref", "deref") and isinstance(pat.get("pat"), dict):
+            pat = pat["pat"]
+        if not isinstance(pat, dict) or pat.get("k") != "tuple":
+            return (False, None)
+        names = {}
+        for i_, sb in enumerate(pat.get("subs") or []):
+            while isinstance(sb, dict) and sb.get("k") in ("ref", "deref") and isinstance(sb.get("pat"), dict):
+                sb = sb["pat"]
+            if isinstance(sb, dict) and sb.get("k") == "bind":
+                names[sb["name"]] = i_
+        b = H.peel_ref(H.peel(clo["body"]))
+        while isinstance(b, dict) and b.get("k") == "block" and not b.get("stmts") and b.get("expr") is not None:
+            b = H.peel_ref(H.peel(b["expr"]))
+        if not isinstance(b, dict) or b.get("k") != "binary" or b.get("op") != "==":
+            return (False, None)
+
+        def comp(x):
+            x = H.peel_ref(x)
+            while isinstance(x, dict) and x.get("k") == "unary" and x.get("op") == "deref":
+                x = H.peel_ref(x["e"])
+            return names.get(x.get("name")) if isinstance(x, dict) and x.get("k") == "local" else None
+        j, other = comp(b["l"]), b["r"]
+        if j is None:
+            j, other = comp(b["r"]), b["l"]
+        if j is None:
+            return (False, None)
+        defs = []
+        for row in rows:
+            c = H.peel_ref(row["es"][j]) if j < len(row.get("es") or []) else {}
+            if c.get("k") != "path" or not c.get("def"):
+                return (False, None)
+            defs.append(c["def"])
+        enum = defs[0].rsplit("::", 1)[0]
+        adt = self.f.adts.get(enum)
+        if not adt or adt.get("kind") != "enum":
+            return (False, None)
+        allv = [v["def"] for v in adt["variants"]]
+        return (all(not v.get("fields") for v in adt["variants"]) and set(defs) == set(allv), {"j": j, "other": other, "defs": defs})
+
+    def row_guard(self, lk, ri):
+        """the guard of one outcome of a table lookup (ri = None: not found). When the lookup compares an enum component
+        with `==`, the outcome is the match arm `<compared expression> is <that variant>` (so that what callers already
+        know about the expression carries over); otherwise only the lookup expression is recorded"""
+        tname = lk["table"].rsplit("::", 1)[-1]
+        g = {"text": ("%s[%d]" % (tname, ri)) if ri is not None else "not in %s" % tname, "table": lk["table"], "row": ri, "scrut": lk["find"]}
+        key = lk.get("key")
+        if key:
+            other = H.peel_ref(key["other"])
+            while isinstance(other, dict) and other.get("k") == "unary" and other.get("op") == "deref":
+                other = H.peel_ref(other["e"])
+            vp = {"k": "variant", "path": {"def": key["defs"][ri]}, "subs": []} if ri is not None else {"k": "wild"}
+            outer = lk.get("outer")
+            if outer is not None and isinstance(other, dict) and other.get("k") == "local" and other.get("name") == outer[1]:
+                g["scrut"] = outer[0]
+                g["pat"] = {"k": "variant", "path": {"def": "core::option::Option::Some"}, "subs": [vp]} if ri is not None else {"k": "wild"}
+            elif outer is None:
+                g["scrut"] = other
+                g["pat"] = vp
+        return g
+
+
+    def with_row(self, pat, row, fn):
+        """evaluate fn() with the names of a closure parameter / pattern bound to the components of a table row"""
+        saved = (dict(self.env), dict(self.env_tuple))
+        try:
+            pat = pat.get("pat") if isinstance(pat, dict) and "pat" in pat and pat.get("k") is None else pat
+            while isinstance(pat, dict) and pat.get("k") in ("ref", "deref") and isinstance(pat.get("pat"), dict):
+                pat = pat["pat"]
+            if isinstance(pat, dict) and pat.get("k") == "tuple":
+                for i_, sb in enumerate(pat.get("subs") or []):
+                    while isinstance(sb, dict) and sb.get("k") in ("ref", "deref") and isinstance(sb.get("pat"), dict):
+                        sb = sb["pat"]
+                    if isinstance(sb, dict) and sb.get("k") == "bind" and i_ < len(row.get("es") or []):
+                        self.env[sb["name"]] = self.S(row["es"][i_])
+            elif isinstance(pat, dict) and pat.get("k") == "bind":
+                self.env_tuple[pat["name"]] = row
+            return fn()
+        finally:
+            self.env, self.env_tuple = saved
 
     def component(self, e, i, depth=0):
         """string-TIR of the i-th component of a tuple-valued expression: through `if` / `match` / blocks down to the tuple
